@@ -6,6 +6,7 @@ import panics
 import c17
 
 META = {
+    "thorough_extra": ["mocks"],
     "level": "other",
     "explanation": "Decision structure of sni::handle / ValidateSNIService::call, decided on all paths (configuration tls,tls-ring,sni): (C20.1) the rejection InvalidSNI is built only on the "
                    "false edge of a case-insensitive comparison (str::eq_ignore_ascii_case) of Authority::host() of the request host with Authority::host() of the parsed server "
